@@ -518,7 +518,7 @@ class Contract(object):
                  loops=None, returns=None, modifies=None, reads=None, setup=None, inline=True,
                  use=(), kwargs=None, bounded=None, note=None, max_paths=None, max_unroll=None,
                  hooks=None, sentinel_of=None, expect_fail=False, call=None, timeout_ms=None,
-                 ghost=None, apply_at_calls=False, cases=None, budget_s=None):
+                 ghost=None, apply_at_calls=False, cases=None, budget_s=None, assumed=False):
         self.target = target
         self.prop = prop
         self.params = params
@@ -547,6 +547,7 @@ class Contract(object):
         self.apply_at_calls = apply_at_calls
         self.cases = cases
         self.budget_s = budget_s
+        self.assumed = assumed
 
 
 REGISTRY = []
@@ -770,6 +771,11 @@ def annotated_loop(ex, node, spec, it=None):
             v = eval_clause(ex, shp, fr.locals, mod, fr.env)
         else:
             v = shp.sym(ex, 'loop!' + lv)
+            if ex.ghost.get('live_env') is not None:
+                tmp = dict(ex.ghost['live_env'])
+                tmp['__result__'] = v
+                resolve_refs(ex, tmp)
+                v = tmp['__result__']
         exempt_vals.add(id(v))
         tnode = parse_clause(lv)
         if isinstance(tnode, ast.Attribute):
@@ -963,6 +969,11 @@ def apply_contract(ex, c, f, args, kwargs):
     try:
         if k == 0:
             res = c.returns.sym(ex, 'ret!' + c.name.split(':')[-1]) if c.returns is not None else None
+            if ex.ghost.get('live_env') is not None:
+                tmp = dict(ex.ghost['live_env'])
+                tmp['__result__'] = res
+                resolve_refs(ex, tmp)
+                res = tmp['__result__']
             env2 = dict(env)
             env2['result'] = res
             for nm, e in c.ensures:
@@ -1038,6 +1049,7 @@ def verify(world_factory, c, registry_by_name=None):
     res = Result(c)
     global LAST_EX
     LAST_EX = ex
+    ex.ob_prefix = c.name
     ex.hooks['annotated_loop'] = annotated_loop
     ex.hooks['apply_contract'] = apply_contract
     ex.hooks['current_contract'] = c
@@ -1118,6 +1130,7 @@ def verify(world_factory, c, registry_by_name=None):
                 shp = Const(shp)
             env[pname] = shp.sym(ex, pname)
         resolve_refs(ex, env)
+        ex.ghost['live_env'] = env
         if c.setup is not None:
             c.setup(ex, env)
         mod = raw.module if isinstance(raw, FuncVal) else None
@@ -1161,6 +1174,13 @@ def verify(world_factory, c, registry_by_name=None):
         for nm in env:
             if nm not in sig[:len(args) + (0 if not is_classmethod else 0)] and nm in c.kwargs:
                 kwargs[nm] = env[nm]
+        if isinstance(raw, FuncVal):
+            va, kw = raw.node.args.vararg, raw.node.args.kwarg
+            if va is not None and va.arg in env:
+                args.extend(N.iterate(ex, env[va.arg]))
+            if kw is not None and kw.arg in env:
+                for kk, (ok, vv) in env[kw.arg].d.items():
+                    kwargs[ok] = vv
         outcome = None
         try:
             result = ex.call(raw, args, kwargs)
